@@ -2296,7 +2296,7 @@ void xmp_get_frame_info(xmp_context opaque, struct xmp_frame_info *info)
 	info->speed = p->speed;
 	info->bpm = p->bpm;
 	info->total_time = p->scan[p->sequence].time;
-	info->frame_time = p->frame_time * 1000;
+	info->frame_time = p->frame_time * 1000 >= (double)INT_MAX ? INT_MAX : (int)(p->frame_time * 1000);
 	/* current_time may pass INT_MAX (the scan saturates order times there) */
 	info->time = p->current_time >= (double)INT_MAX ? INT_MAX : (int)p->current_time;
 	info->buffer = s->buffer;
